@@ -105,8 +105,9 @@ func (prog *Prog) buildProg(as abi.As, arg *abi.X64Argument) (inst *Prog, err er
 		default:
 			panic("unreachable")
 		}
-		prog.From = src
-		prog.To = dst
+		// Plan 9 CMP takes its operands in Intel order: `cmp a, b` is CMPQ a, b (From=a, To=b)
+		prog.From = dst
+		prog.To = src
 
 	case ACMOVNE: // cmovne
 		// cmovne r10d, r11d
@@ -612,21 +613,16 @@ func (prog *Prog) buildProg(as abi.As, arg *abi.X64Argument) (inst *Prog, err er
 	case APUSH: // push
 		// push rbp
 		assert(prog.nArg(arg) == 1)
-		prog.From = src
 		switch prog.xLen(arg) {
-		case 1:
-			assert(arg.Src.Reg == REG_AL)
-			prog.As = p9x86.APUSHAL
 		case 2:
 			prog.As = p9x86.APUSHW
-		case 4:
-			prog.As = p9x86.APUSHL
 		case 8:
 			prog.As = p9x86.APUSHQ
 		default:
 			panic("unreachable")
 		}
-		prog.To = dst
+		// the pushed operand is the source operand of Plan 9's PUSHQ
+		prog.From = dst
 
 	case ARET: // ret
 		assert(prog.nArg(arg) == 0)
